@@ -153,13 +153,15 @@ func getRandUint32IPv4(ipNet *net.IPNet) (uint32, error) {
 
 	mask := ipNet.Mask
 	ones, bits := mask.Size()
-	hosts := uint32(1 << uint32(bits-ones))
+	// the number of addresses does not fit a uint32 for a /0 network, where the shift used to wrap
+	// to zero and rand.Int panicked on an empty range
+	hosts := uint64(1) << uint(bits-ones)
 
-	ip, err := randomInt(ipUint32, ipUint32+hosts)
+	offset, err := rand.Int(rand.Reader, new(big.Int).SetUint64(hosts))
 	if err != nil {
 		return 0, errors.New("Failed to get random IPv4 as uint32 from the given range")
 	}
-	return ip, nil
+	return ipUint32 + uint32(offset.Uint64()), nil
 }
 
 // helper function to get random integers within a range
